@@ -1,16 +1,32 @@
 //! Minimisation on the scenario value (not on the seed): greedy structural passes over the
 //! scenario's JSON tree; a candidate is kept only if it still deserialises, executes without a
 //! harness error, and the same clause of the same property still fails with the same site.
+//! Bounded by a number of executions and by wall-clock time; candidates are applied lazily so
+//! that scenarios with thousands of shapes or calls cost no more memory than two copies.
 
 use crate::core::*;
 use crate::scn::*;
 use serde_json::Value;
+use std::time::{Duration, Instant};
 
-fn fails_same(v: &Value, fingerprint: &str, budget: &mut usize) -> bool {
-    if *budget == 0 {
+struct Budget {
+    execs: usize,
+    deadline: Instant,
+    used: usize,
+}
+
+impl Budget {
+    fn left(&self) -> bool {
+        self.execs > 0 && Instant::now() < self.deadline
+    }
+}
+
+fn fails_same(v: &Value, fingerprint: &str, b: &mut Budget) -> bool {
+    if !b.left() {
         return false;
     }
-    *budget -= 1;
+    b.execs -= 1;
+    b.used += 1;
     let Ok(scn) = serde_json::from_value::<Scenario>(v.clone()) else { return false };
     let mut ctx = Ctx::new();
     let r = guarded(|| execute(&scn, &mut ctx));
@@ -23,26 +39,42 @@ fn fails_same(v: &Value, fingerprint: &str, budget: &mut usize) -> bool {
     ctx.fails.iter().any(|f| f.fingerprint() == fingerprint)
 }
 
-/// paths to every node, children before parents are visited later (we go outermost first)
-fn paths(v: &Value, cur: &mut Vec<String>, out: &mut Vec<Vec<String>>) {
+/// paths to every array / scalar node worth trying, outermost first; children of huge arrays
+/// are only listed for their first few elements
+fn paths(v: &Value, cur: &mut Vec<String>, out: &mut Vec<Vec<String>>, limit: usize) {
+    if out.len() >= limit {
+        return;
+    }
     out.push(cur.clone());
     match v {
         Value::Array(a) => {
-            for (i, x) in a.iter().enumerate() {
+            for (i, x) in a.iter().enumerate().take(24) {
                 cur.push(i.to_string());
-                paths(x, cur, out);
+                paths(x, cur, out, limit);
                 cur.pop();
             }
         }
         Value::Object(o) => {
             for (k, x) in o.iter() {
                 cur.push(k.clone());
-                paths(x, cur, out);
+                paths(x, cur, out, limit);
                 cur.pop();
             }
         }
         _ => {}
     }
+}
+
+fn get<'a>(v: &'a Value, path: &[String]) -> Option<&'a Value> {
+    let mut cur = v;
+    for p in path {
+        cur = match cur {
+            Value::Array(a) => a.get(p.parse::<usize>().ok()?)?,
+            Value::Object(o) => o.get(p)?,
+            _ => return None,
+        };
+    }
+    Some(cur)
 }
 
 fn get_mut<'a>(v: &'a mut Value, path: &[String]) -> Option<&'a mut Value> {
@@ -57,28 +89,15 @@ fn get_mut<'a>(v: &'a mut Value, path: &[String]) -> Option<&'a mut Value> {
     Some(cur)
 }
 
-fn candidates(node: &Value) -> Vec<Value> {
+/// scalar / enum replacements for one node
+fn replacements(node: &Value) -> Vec<Value> {
     let mut c = Vec::new();
     match node {
-        Value::Array(a) => {
-            if a.len() > 1 {
-                c.push(Value::Array(vec![]));
-                // halves
-                c.push(Value::Array(a[..a.len() / 2].to_vec()));
-                c.push(Value::Array(a[a.len() / 2..].to_vec()));
-            }
-            for i in (0..a.len()).rev() {
-                let mut b = a.clone();
-                b.remove(i);
-                c.push(Value::Array(b));
-            }
-        }
         Value::Number(n) => {
             if let Some(u) = n.as_u64() {
                 if u != 0 {
                     c.push(Value::from(0u64));
                     if u > 1 << 52 {
-                        // a float bit pattern: try 1.0, 2.0, 3.0
                         for f in [1.0f64, 2.0, 3.0] {
                             if f.to_bits() != u {
                                 c.push(Value::from(f.to_bits()));
@@ -94,11 +113,10 @@ fn candidates(node: &Value) -> Vec<Value> {
         }
         Value::Bool(true) => c.push(Value::Bool(false)),
         Value::Object(o) => {
-            // enum simplifications
             if o.len() == 1 && o.contains_key("Buf") {
                 c.push(Value::String("Direct".into()));
             }
-            if o.len() == 1 && (o.contains_key("WriteShapes")) {
+            if o.len() == 1 && o.contains_key("WriteShapes") {
                 c.push(Value::String("Drop".into()));
             }
             if o.contains_key("chunks") && o.contains_key("eintr") {
@@ -118,39 +136,85 @@ fn candidates(node: &Value) -> Vec<Value> {
     c
 }
 
-pub fn minimise(scn: &Scenario, fingerprint: &str, mut budget: usize) -> (Scenario, usize) {
+/// ddmin-style chunk removal on the array at `path`; returns true if anything was removed
+fn shrink_array(best: &mut Value, path: &[String], fingerprint: &str, b: &mut Budget) -> bool {
+    let mut improved = false;
+    let Some(Value::Array(a)) = get(best, path) else { return false };
+    let mut len = a.len();
+    if len == 0 {
+        return false;
+    }
+    let mut chunk = len;
+    while b.left() {
+        chunk = chunk.min(len).max(1);
+        if chunk == 1 && len > 96 {
+            break; // element-by-element only once the array is small
+        }
+        let mut start = 0;
+        while start < len && b.left() {
+            let end = (start + chunk).min(len);
+            let mut trial = best.clone();
+            if let Some(Value::Array(t)) = get_mut(&mut trial, path) {
+                t.drain(start..end);
+            } else {
+                return improved;
+            }
+            if fails_same(&trial, fingerprint, b) {
+                *best = trial;
+                len -= end - start;
+                improved = true;
+                // the same `start` now addresses the next chunk
+            } else {
+                start = end;
+            }
+        }
+        if chunk == 1 || len == 0 {
+            break;
+        }
+        chunk /= 2;
+    }
+    improved
+}
+
+pub fn minimise(scn: &Scenario, fingerprint: &str, budget: usize, secs: u64) -> (Scenario, usize) {
     let mut best = serde_json::to_value(scn).unwrap();
-    let start = budget;
-    if !fails_same(&best, fingerprint, &mut budget) {
+    let mut b = Budget { execs: budget, deadline: Instant::now() + Duration::from_secs(secs), used: 0 };
+    if !fails_same(&best, fingerprint, &mut b) {
         return (scn.clone(), 0);
     }
     loop {
         let mut improved = false;
         let mut ps = Vec::new();
-        paths(&best, &mut vec![], &mut ps);
+        paths(&best, &mut vec![], &mut ps, 4000);
         for p in ps {
-            if budget == 0 {
+            if !b.left() {
                 break;
             }
-            let Some(node) = get_mut(&mut best, &p).map(|n| n.clone()) else { continue };
-            for cand in candidates(&node) {
+            let Some(node) = get(&best, &p) else { continue };
+            if node.is_array() {
+                if shrink_array(&mut best, &p, fingerprint, &mut b) {
+                    improved = true;
+                }
+                continue;
+            }
+            for cand in replacements(node) {
                 let mut trial = best.clone();
                 if let Some(slot) = get_mut(&mut trial, &p) {
                     *slot = cand;
                 } else {
                     continue;
                 }
-                if fails_same(&trial, fingerprint, &mut budget) {
+                if fails_same(&trial, fingerprint, &mut b) {
                     best = trial;
                     improved = true;
                     break;
                 }
             }
         }
-        if !improved || budget == 0 {
+        if !improved || !b.left() {
             break;
         }
     }
     let out = serde_json::from_value::<Scenario>(best).unwrap_or_else(|_| scn.clone());
-    (out, start - budget)
+    (out, b.used)
 }
